@@ -56,6 +56,7 @@ REGISTRIES = {
         'channels': ('KHandle', ['on_disconnection']),
         'le_coc_channels': ('KHandle', ['on_disconnection']),
         'pending_credit_based_connections': ('KHandle', ['on_disconnection']),
+        'le_coc_requests': ('KHandle', ['on_disconnection']),
     },
 }
 
@@ -99,7 +100,6 @@ NOT_CONNECTION_KEYED = {
     ('l2cap', 'ChannelManager'): {
         'fixed_channels': 'handlers by CID',
         'servers': 'by PSM', 'le_coc_servers': 'by PSM',
-        'le_coc_requests': 'by signalling identifier (owned by property C09, D09b)',
     },
 }
 
@@ -257,6 +257,16 @@ def unclassified(repo):
     return out
 
 
+def removers():
+    """(registry, "module.Class.method") for every hook that must remove the registry"""
+    out = []
+    for (module, clsname), regs in sorted(REGISTRIES.items()):
+        for a, (kind, hooks) in sorted(regs.items()):
+            for hname in hooks:
+                out.append((f'{module}.{clsname}.{a}', f'{module}.{clsname}.{hname}'))
+    return out
+
+
 def render(found):
     lines = [
         '(* GENERATED by tools/translate/c16_registries.py from the bumble sources on every run of',
@@ -269,6 +279,167 @@ def render(found):
         'Definition found_registries : list found := [',
     ]
     rows = [f'  ("{n}", {k}, {"true" if r else "false"})' for n, k, r in found]
+    lines.append(';\n'.join(rows))
+    lines.append('].')
+    lines.append('')
+    lines.append('(* (registry, the method whose body removes its entries when the connection goes away) *)')
+    lines.append('Definition found_removers : list (string * string) := [')
+    lines.append(';\n'.join(f'  ("{r}", "{m}")' for r, m in removers()))
+    lines.append('].')
+    return '\n'.join(lines) + '\n'
+
+
+# ============================================================================= shapes
+# The teardown-relevant functions, reduced to the ordered list of the effects the model is
+# about (which table is popped, which event is emitted, which future is cancelled, which
+# listener is registered, which sub-hook is called), each prefixed by the control structure
+# it sits in (with the text of every `if` test).  Regenerated on every run; the Coq side
+# (Model/Teardown.v expected_shapes) must be equal, and the fan-out order of the model is
+# DERIVED from these lists (derive_chain).
+SHAPE_FUNCTIONS = [
+    ('host', 'Host', 'on_hci_disconnection_complete_event'),
+    ('host', 'Host', 'on_transport_lost'),
+    ('host', 'DataPacketQueue', 'flush'),
+    ('device', 'Device', 'host'),                 # the setter: order in which listeners are registered
+    ('device', 'Device', 'on_disconnection'),
+    ('device', 'Device', 'on_flush'),
+    ('device', 'Device', 'disconnect'),
+    ('l2cap', 'ChannelManager', 'on_disconnection'),
+    ('gatt_server', 'Server', 'on_disconnection'),
+    ('gatt_server', 'Server', 'register_eatt'),
+    ('gatt_client', 'Client', '__init__'),
+    ('gatt_client', 'Client', 'on_disconnection'),
+    ('smp', 'Session', 'on_disconnection'),
+    ('smp', 'Manager', 'on_session_end'),
+    ('sdp', 'Client', 'on_channel_close'),
+    ('rfcomm', 'Multiplexer', 'on_l2cap_channel_close'),
+    ('utils', None, 'cancel_on_event'),
+]
+
+EFFECT_METHODS = {
+    'emit', 'pop', 'clear', 'popitem', 'flush', 'abort', 'cancel', 'set_result', 'set_exception', 'on', 'once',
+    'remove_listener', 'on_disconnection', 'on_session_end', 'on_hci_disconnection_complete_event',
+    'add_done_callback', 'set', '_check_queue',
+}
+
+
+def _txt(node):
+    return ' '.join(ast.unparse(node).split())
+
+
+def _effects_of_expr(node, path, out):
+    for sub in ast.walk(node):
+        if isinstance(sub, ast.Call) and isinstance(sub.func, ast.Attribute) and sub.func.attr in EFFECT_METHODS:
+            recv = _txt(sub.func.value)
+            arg = ''
+            if sub.args:
+                a = sub.args[0]
+                if isinstance(a, ast.Constant) and isinstance(a.value, str):
+                    arg = repr(a.value)
+                elif isinstance(a, (ast.Attribute, ast.Name)):
+                    arg = _txt(a)
+            out.append(f'{path}{recv}.{sub.func.attr}({arg})')
+        elif isinstance(sub, (ast.Lambda,)):
+            pass
+
+
+def _shape_stmts(stmts, path, out):
+    for st in stmts:
+        if isinstance(st, (ast.FunctionDef, ast.AsyncFunctionDef)):
+            _shape_stmts(st.body, f'{path}def {st.name}>', out)
+        elif isinstance(st, ast.If):
+            out.append(f'{path}if[{_txt(st.test)}]')
+            _effects_of_expr(st.test, path + 'test>', out)
+            _shape_stmts(st.body, path + 'then>', out)
+            if st.orelse:
+                _shape_stmts(st.orelse, path + 'else>', out)
+        elif isinstance(st, (ast.For, ast.AsyncFor)):
+            out.append(f'{path}for[{_txt(st.target)} in {_txt(st.iter)}]')
+            _effects_of_expr(st.iter, path + 'iter>', out)
+            _shape_stmts(st.body, path + 'for>', out)
+        elif isinstance(st, ast.While):
+            out.append(f'{path}while[{_txt(st.test)}]')
+            _shape_stmts(st.body, path + 'while>', out)
+        elif isinstance(st, ast.Try):
+            _shape_stmts(st.body, path + 'try>', out)
+            for hd in st.handlers:
+                _shape_stmts(hd.body, path + 'except>', out)
+            _shape_stmts(st.finalbody, path + 'finally>', out)
+        elif isinstance(st, (ast.With, ast.AsyncWith)):
+            for item in st.items:
+                _effects_of_expr(item.context_expr, path, out)
+            _shape_stmts(st.body, path, out)
+        elif isinstance(st, ast.Delete):
+            for t in st.targets:
+                out.append(f'{path}del {_txt(t)}')
+        elif isinstance(st, ast.Return):
+            if st.value is not None:
+                _effects_of_expr(st.value, path, out)
+            out.append(f'{path}return')
+        elif isinstance(st, ast.Raise):
+            out.append(f'{path}raise')
+        elif isinstance(st, (ast.Assign, ast.AnnAssign, ast.AugAssign)):
+            value = st.value
+            if value is not None:
+                _effects_of_expr(value, path, out)
+            targets = st.targets if isinstance(st, ast.Assign) else [st.target]
+            for t in targets:
+                if isinstance(t, ast.Attribute):
+                    out.append(f'{path}set {_txt(t)}')
+        elif isinstance(st, ast.Expr):
+            if isinstance(st.value, ast.Constant):
+                continue        # docstring
+            _effects_of_expr(st.value, path, out)
+        else:
+            _effects_of_expr(st, path, out)
+
+
+def shapes(repo):
+    out = []
+    trees = {}
+    for module, clsname, fname in SHAPE_FUNCTIONS:
+        if module not in trees:
+            path = os.path.join(repo, 'bumble', module + '.py')
+            with open(path) as f:
+                trees[module] = ast.parse(f.read(), path)
+        body = trees[module].body
+        if clsname is not None:
+            cls = next((n for n in body if isinstance(n, ast.ClassDef) and n.name == clsname), None)
+            if cls is None:
+                raise TranslationError(f'class {module}.{clsname} not found')
+            body = cls.body
+        funcs = [n for n in body if isinstance(n, (ast.FunctionDef, ast.AsyncFunctionDef)) and n.name == fname]
+        if fname == 'host':   # property + setter: take the setter
+            funcs = [n for n in funcs if any(isinstance(d, ast.Attribute) and d.attr == 'setter'
+                                             for d in n.decorator_list)]
+        if len(funcs) != 1:
+            raise TranslationError(f'{module}.{clsname}.{fname}: expected exactly one definition, found {len(funcs)}')
+        toks = []
+        _shape_stmts(funcs[0].body, '', toks)
+        name = f'{module}.{clsname}.{fname}' if clsname else f'{module}.{fname}'
+        out.append((name, toks))
+    return out
+
+
+def _coq_str(s):
+    if any(ord(c) > 126 or ord(c) < 32 for c in s):
+        raise TranslationError(f'non-ASCII text in a shape token: {s!r}')
+    return '"' + s.replace('"', '""') + '"'
+
+
+def render_shapes(sh):
+    lines = [
+        '(* GENERATED by tools/translate/c16_registries.py (shapes) on every run of ./check C16. Do not edit. *)',
+        'From Coq Require Import List String.',
+        'Import ListNotations.',
+        'Open Scope string_scope.',
+        '',
+        'Definition source_shapes : list (string * list string) := [',
+    ]
+    rows = []
+    for name, toks in sh:
+        body = ';\n     '.join(_coq_str(t) for t in toks)
+        rows.append(f'  ({_coq_str(name)},\n    [{body}])')
     lines.append(';\n'.join(rows))
     lines.append('].')
     return '\n'.join(lines) + '\n'
